@@ -75,6 +75,9 @@ func LiveMPD(a *asset, mpdName string, cfg *ResponseConfig, drmCfg *drm.DrmConfi
 		slog.Debug("Inserting ID for MPD for patch", "id", "auto-patch-id")
 		mpd.Id = "auto-patch-id"
 	}
+	if cfg.PatchTTL > 0 {
+		addMissingIDsForPatch(mpd)
+	}
 	if cfg.AddLocationFlag {
 		var strBuf strings.Builder
 		strBuf.WriteString(cfg.Host)
@@ -352,6 +355,33 @@ func lastPeriodStartTime(mpd *m.MPD) (m.DateTime, error) {
 	}
 	lastAbsStart := ast + lastRelStartS
 	return m.ConvertToDateTime(lastAbsStart), nil
+}
+
+// addMissingIDsForPatch gives Periods and AdaptationSets that have no id one: an MPD patch addresses them
+// by id, so an MPD that advertises a PatchLocation must carry them (like the MPD id above).
+func addMissingIDsForPatch(mpd *m.MPD) {
+	for pNr, p := range mpd.Periods {
+		if p.Id == "" {
+			p.Id = fmt.Sprintf("auto-patch-period-%d", pNr)
+		}
+		used := make(map[uint32]bool)
+		for _, as := range p.AdaptationSets {
+			if as.Id != nil {
+				used[*as.Id] = true
+			}
+		}
+		next := uint32(1)
+		for _, as := range p.AdaptationSets {
+			if as.Id != nil {
+				continue
+			}
+			for used[next] {
+				next++
+			}
+			as.Id = Ptr(next)
+			used[next] = true
+		}
+	}
 }
 
 func addPatchLocation(mpd *m.MPD, cfg *ResponseConfig) {
